@@ -51,6 +51,8 @@ func checkC02(ctx *Ctx, r *Report) {
 	c02GoImportsUsed(ctx, r)
 	c02PythonIdentifierCharacters(ctx, r)
 	c02EqualityTypeChecks(ctx, r)
+	c02ReservedWordTables(ctx, r)
+	c02GoImportInScope(ctx, r)
 }
 
 // kindConsts: the constants of ast.Kind / ast.ScalarKind.
@@ -1891,4 +1893,225 @@ func c02EqualityTypeChecks(ctx *Ctx, r *Report) {
 			r.Obls = append(r.Obls, o)
 		}
 	}
+}
+
+// c02ReservedWordTables: each language with a reserved-word predicate has to know the words its grammar reserves.
+// The tables below are transcribed from the language specifications (Go spec §Keywords; JLS §3.9 plus the three
+// literals; Python 3 `keyword.kwlist`; ECMAScript reserved words plus the strict-mode ones — modules are strict — and
+// TypeScript's `enum`); the predicate is read from the source (string constants compared with its parameter).
+var c02ReservedWords = map[string][]string{
+	"golang":     {"break", "case", "chan", "const", "continue", "default", "defer", "else", "fallthrough", "for", "func", "go", "goto", "if", "import", "interface", "map", "package", "range", "return", "select", "struct", "switch", "type", "var"},
+	"java":       {"abstract", "assert", "boolean", "break", "byte", "case", "catch", "char", "class", "const", "continue", "default", "do", "double", "else", "enum", "extends", "final", "finally", "float", "for", "goto", "if", "implements", "import", "instanceof", "int", "interface", "long", "native", "new", "package", "private", "protected", "public", "return", "short", "static", "strictfp", "super", "switch", "synchronized", "this", "throw", "throws", "transient", "try", "void", "volatile", "while", "true", "false", "null"},
+	"python":     {"False", "None", "True", "and", "as", "assert", "async", "await", "break", "class", "continue", "def", "del", "elif", "else", "except", "finally", "for", "from", "global", "if", "import", "in", "is", "lambda", "nonlocal", "not", "or", "pass", "raise", "return", "try", "while", "with", "yield"},
+	"typescript": {"break", "case", "catch", "class", "const", "continue", "debugger", "default", "delete", "do", "else", "enum", "export", "extends", "false", "finally", "for", "function", "if", "import", "in", "instanceof", "new", "null", "return", "super", "switch", "this", "throw", "true", "try", "typeof", "var", "void", "while", "with", "implements", "interface", "let", "package", "private", "protected", "public", "static", "yield", "await"},
+}
+
+var c02ReservedPredicates = map[string]string{"golang": "isReservedGoKeyword", "java": "isReservedJavaKeyword", "python": "isReservedPythonKeyword", "typescript": "isReservedTypescriptKeyword"}
+
+func c02ReservedWordTables(ctx *Ctx, r *Report) {
+	// TypeScript is left out: C02 asks Go to type-check, Python to import and Java to compile; nothing here can compile TypeScript to show a failing input
+	langs := []string{"golang", "java", "python"}
+	for _, lang := range langs {
+		fn := ctx.LookupFunc("internal/jennies/"+lang, c02ReservedPredicates[lang])
+		fd, p := ctx.DeclOf(fn)
+		if fd == nil || fd.Body == nil {
+			r.Undecided("anchor lost: %s.%s", lang, c02ReservedPredicates[lang])
+			continue
+		}
+		info := p.TypesInfo
+		known := map[string]bool{}
+		ast.Inspect(fd.Body, func(n ast.Node) bool {
+			if lit, ok := n.(*ast.BasicLit); ok && lit.Kind == token.STRING {
+				if tv, ok := info.Types[lit]; ok && tv.Value != nil {
+					known[constant.StringVal(tv.Value)] = true
+				}
+			}
+			return true
+		})
+		r.Count("reserved words known to the "+lang+" jenny", len(known))
+		var missing []string
+		for _, w := range c02ReservedWords[lang] {
+			if !known[w] {
+				missing = append(missing, w)
+			}
+		}
+		r.Check(len(missing) == 0, "kinds/reserved-words-complete", lang+"."+c02ReservedPredicates[lang]+" knows the reserved words of the language", fd.Pos(), fmt.Sprintf("all %d words of the specification's list are in the predicate", len(c02ReservedWords[lang])),
+			lang+"."+c02ReservedPredicates[lang]+" does not know "+strings.Join(missing, ", ")+": a field, argument or option with one of these names is written as it is and the generated code does not compile while the run succeeds")
+	}
+}
+
+// c02GoImportInScope: the converse of skeleton/go-import-used at the granularity of a branch. A Go template file that
+// registers a standard package with importStdPkg manages that import itself; a use of the package (`errors.New(`) in a
+// branch where no registration is in scope — none earlier in the same list, none in an enclosing list before the
+// branch, none at the top level of the define — relies on some other branch having been rendered into the same file.
+func c02GoImportInScope(ctx *Ctx, r *Report) {
+	ts, err := loadTemplates(ctx, "golang")
+	if err != nil {
+		r.Undecided("cannot parse golang templates: %v", err)
+		return
+	}
+	// packages managed per file
+	managed := map[string]map[string]bool{} // file -> package name
+	regOf := func(n parse.Node) string {
+		an, ok := n.(*parse.ActionNode)
+		if !ok || len(an.Pipe.Cmds) != 1 {
+			return ""
+		}
+		args := an.Pipe.Cmds[0].Args
+		if len(args) != 2 {
+			return ""
+		}
+		id, ok := args[0].(*parse.IdentifierNode)
+		if !ok || id.Ident != "importStdPkg" {
+			return ""
+		}
+		lit, ok := args[1].(*parse.StringNode)
+		if !ok {
+			return ""
+		}
+		pkg := lit.Text
+		if k := strings.LastIndex(pkg, "/"); k >= 0 {
+			pkg = pkg[k+1:]
+		}
+		return pkg
+	}
+	for _, name := range ts.names() {
+		f := ts.file[name]
+		walkTmpl(ts.trees[name].Root, func(n parse.Node) bool {
+			if pkg := regOf(n); pkg != "" {
+				if managed[f] == nil {
+					managed[f] = map[string]bool{}
+				}
+				managed[f][pkg] = true
+			}
+			return true
+		})
+	}
+	// a define inherits what is in scope at every place that invokes it (self-invocations aside); a file template
+	// or a define nobody invokes from a template (rendered by name from Go) starts with nothing
+	all := map[string]bool{}
+	for _, m := range managed {
+		for k := range m {
+			all[k] = true
+		}
+	}
+	invoked := map[string]bool{}
+	for _, name := range ts.names() {
+		walkTmpl(ts.trees[name].Root, func(n parse.Node) bool {
+			if tn, ok := n.(*parse.TemplateNode); ok && tn.Name != name {
+				invoked[tn.Name] = true
+			}
+			return true
+		})
+	}
+	inherited := map[string]map[string]bool{}
+	for _, name := range ts.names() {
+		if invoked[name] {
+			cp := map[string]bool{}
+			for k := range all {
+				cp[k] = true
+			}
+			inherited[name] = cp
+		} else {
+			inherited[name] = map[string]bool{}
+		}
+	}
+	uses := 0
+	type finding struct {
+		cons, where, pkg string
+		ok               bool
+	}
+	var results []finding
+	for round := 0; round < 6; round++ {
+		results = nil
+		uses = 0
+		callScopes := map[string][]map[string]bool{}
+		for _, name := range ts.names() {
+			tree := ts.trees[name]
+			f := ts.file[name]
+			seen := map[string]int{}
+			var visit func(list *parse.ListNode, inScope map[string]bool)
+			visit = func(list *parse.ListNode, inScope map[string]bool) {
+				if list == nil {
+					return
+				}
+				scope := map[string]bool{}
+				for k := range inScope {
+					scope[k] = true
+				}
+				for _, n := range list.Nodes {
+					if pkg := regOf(n); pkg != "" {
+						scope[pkg] = true
+					}
+				}
+				for _, n := range list.Nodes {
+					switch x := n.(type) {
+					case *parse.TextNode:
+						for pkg := range managed[f] {
+							if !regexp.MustCompile(`\b` + pkg + `\.[A-Z]`).Match(x.Text) {
+								continue
+							}
+							uses++
+							key := fmt.Sprintf("golang %s uses %s", name, pkg)
+							seen[key]++
+							cons := key
+							if seen[key] > 1 {
+								cons = fmt.Sprintf("%s #%d", key, seen[key])
+							}
+							results = append(results, finding{cons, ts.posOf(ctx, name, x), pkg, scope[pkg]})
+						}
+					case *parse.TemplateNode:
+						if x.Name != name {
+							cp := map[string]bool{}
+							for k := range scope {
+								cp[k] = true
+							}
+							callScopes[x.Name] = append(callScopes[x.Name], cp)
+						}
+					case *parse.IfNode:
+						visit(x.List, scope)
+						visit(x.ElseList, scope)
+					case *parse.RangeNode:
+						visit(x.List, scope)
+						visit(x.ElseList, scope)
+					case *parse.WithNode:
+						visit(x.List, scope)
+						visit(x.ElseList, scope)
+					}
+				}
+			}
+			visit(tree.Root, inherited[name])
+		}
+		changed := false
+		for name, scopes := range callScopes {
+			if _, ok := inherited[name]; !ok {
+				continue
+			}
+			meet := map[string]bool{}
+			for k := range all {
+				in := true
+				for _, sc := range scopes {
+					if !sc[k] {
+						in = false
+					}
+				}
+				if in {
+					meet[k] = true
+				}
+			}
+			if len(meet) != len(inherited[name]) {
+				changed = true
+			}
+			inherited[name] = meet
+		}
+		if !changed {
+			break
+		}
+	}
+	for _, fr := range results {
+		r.Check(fr.ok, "skeleton/go-import-in-scope", fr.cons, token.NoPos, fr.where+": a registration of the import is in scope (here or at every place that invokes this template)",
+			fr.where+": the text uses "+fr.pkg+". in a branch where no `importStdPkg` of that package is in scope, although the file registers it elsewhere: when only this branch is rendered into a file the import is missing — `undefined: "+fr.pkg+"`")
+	}
+	r.Count("uses of template-managed Go imports", uses)
+	r.Floor("uses of template-managed Go imports", 20)
 }
